@@ -29,7 +29,7 @@ class SyncSuite(Suite):
     needs_root = True
     focus = ("c01",)
     n_cases = {"quick": 250, "thorough": 6000, "search": 120}
-    rule = ("(source tree, prior destination) pairs: source in memory or on disk, all entry types, hard-link groups, suid/sgid/sticky, xattrs, sizes around "
+    rule = ("(source tree, prior destination) pairs: source in memory (readers with short-read schedules) or on disk, all entry types, hard-link groups, suid/sgid/sticky, xattrs, sizes around "
             "32KiB; destination fresh / edit-script of the source (touch, chmod, chown, rewrite, delete, type swap, add, renumber, relink) / unrelated tree; "
             "merge on/off; differ metadata/none; receive filter; stream capacity 0..64; non-trivial = distinct op with >= 3 source entries")
 
@@ -51,6 +51,9 @@ class SyncSuite(Suite):
             opt["differ"] = "none"
         if rng.random() < 0.15:
             opt["rfilter"] = {"uid": rng.choice([0, 1000]), "gid": rng.choice([0, 1000])}
+        if kind == "mem" and rng.random() < 0.35:
+            # a synthetic source whose readers return short reads (io.Reader allows it): 0 = as much as fits
+            opt["readsizes"] = [rng.choice([1000, 4096, 10000, 32768, 0]) for _ in range(rng.randint(1, 3))]
         return {"op": "sync", "src": {"kind": kind, "tree": tree}, "dst": dst, "opt": opt}
 
     def gen(self, rng, tier):
